@@ -215,6 +215,10 @@ package main
 //@   assert at call broadcastToSessions [C09] relayed_faithfully: $1 != nil && $1.Info != nil && $1.Data == nil && $1.Pres == nil && $1.Info.From == msg.AsUser && $1.Info.What == msg.Note.What && $1.Info.SeqId == msg.Note.SeqId && $1.Info.Topic == msg.Original && $1.Info.Src == "" && $1.SkipSid == msg.sess.sid
 //@   assert at call broadcastToSessions [C09] typing_from_writers_only: msg.Note.What == "kp" || msg.Note.What == "kpa" || msg.Note.What == "kpv" ==> (effMode(t, types.ParseUserId(msg.AsUser)) & types.ModeWrite) != 0 && !t.perUser[types.ParseUserId(msg.AsUser)].deleted
 //@   assert at call broadcastToSessions [C09] marks_from_readers_only: msg.Note.What == "read" || msg.Note.What == "recv" ==> (effMode(t, types.ParseUserId(msg.AsUser)) & types.ModeRead) != 0 && !t.perUser[types.ParseUserId(msg.AsUser)].deleted
+// (C09: "neither mark ever decreases ... stored": a mark that was written to the store is the mark the topic remembers, so
+// that a later stale note is recognised as stale. Known finding for notes addressed by the channel spelling: the cache
+// is deliberately left alone there - an existing test pins it - and a later, smaller mark is written over a larger one.)
+//@   ensures [C09] stored_read_mark_is_remembered: called("presPubMessageCount") > old(called("presPubMessageCount")) && old(msg.Note.What) == "read" ==> t.perUser[types.ParseUserId(old(msg.AsUser))].readID == old(msg.Note.SeqId)
 //@   assert at call Update [C09] recv_persisted: pud.recvID != old(t.perUser[types.ParseUserId(msg.AsUser)].recvID) ==> recv == pud.recvID
 //@   assert at call Update [C09] read_persisted: pud.readID != old(t.perUser[types.ParseUserId(msg.AsUser)].readID) ==> read == pud.readID
 //@   modifies inferred
